@@ -71,6 +71,13 @@ var jobTable = map[string]jobSet{
 			{Scenario: "size-product(c2s: 2 of {1,100,32768,32769,65535}; s2c: 1)",
 				Scenarios: sizeProduct([]int{1, 100, 32768, 32769, 65535}, 2, 1), Budgets: bs(B(0, 0))},
 			{Scenario: "e2e/c2s=1,100/s2c=32768", Budgets: bs(B(1, 0)), Split: 1},
+			// readers that mix small and large buffers within one record
+			{Scenario: "read-buffer mixes", Scenarios: []string{
+				"e2e/c2s=65535,100/s2c=65535,40000/rbuf=10,32768,70000",
+				"e2e/c2s=65535,100/s2c=65535,40000/rbuf=1,40000",
+				"e2e/c2s=40000/s2c=65535/rbuf=7,65535,3",
+				"e2e/c2s=32769/s2c=32769/rbuf=1,32768",
+			}, Budgets: bs(B(0, 0))},
 			// the client application hangs up in the middle of the server's
 			// answer (10 bytes / 40000 bytes into a 64 KiB record); the next
 			// connection of the same NoiseGrpcConn must start clean
